@@ -606,6 +606,53 @@ theorem C20_drop_all_clean (S : Schema) (a : Alloc σ) (ha : a.Valid) (ops : Lis
     rw [he] at hem; cases hem
   exact ⟨hlive, hn, hc.byClass.trans hn, hi, he, hr⟩
 
+open KrroodVerif.Drive.SG in
+theorem harness_kind_ns {f : Fld} (h : schema.kind f ≠ .scalar) : f ≠ 0 ∧ f ≠ 6 ∧ f ≠ 7 ∧ f ≠ 8 := by
+  refine ⟨?_, ?_, ?_, ?_⟩ <;> (rintro rfl; exact h rfl)
+
+open KrroodVerif.Drive.SG in
+/-- **C20_harness_schema_closed.** The schema of the harness (with every hierarchy extension a history may define) is
+container-closed: its container fields `member_of`, `members`, `sub_of` and the plain fields only infer container fields. -/
+theorem C20_harness_schema_closed (extra : List (Cls × Cls)) : (schemaWith extra).ContainerClosed := by
+  constructor
+  · intro f c f' hk hf'
+    obtain ⟨h0, -⟩ := harness_kind_ns hk
+    have : schema.supers f c = [] := by
+      unfold schema; simp only
+    have hf'' : f' ∈ schema.supers f c := hf'
+    rw [this] at hf''; cases hf''
+  · intro f c f' hk hf'
+    obtain ⟨h0, h6, h7, h8⟩ := harness_kind_ns hk
+    have : schema.takerSupers f c = [] := by
+      unfold schema; simp only; split <;> simp_all
+    have hf'' : f' ∈ schema.takerSupers f c := hf'
+    rw [this] at hf''; cases hf''
+  · intro f c f' hk hf'
+    obtain ⟨h0, h6, h7, h8⟩ := harness_kind_ns hk
+    have hf'' : schema.inverse f c = some f' := hf'
+    show schema.kind f' ≠ .scalar
+    unfold schema at hf''
+    simp only at hf''
+    split at hf'' <;> (try split at hf'') <;> simp_all <;> (subst hf''; decide)
+  · intro f c f' hk hf'
+    have hf'' : schema.takerInverse f c = some f' := hf'
+    show schema.kind f' ≠ .scalar
+    unfold schema at hf''
+    simp only at hf''
+    split at hf'' <;> simp_all
+    subst hf''; decide
+  · intro f f' hk ht hd
+    have hd' : f' = f := hd
+    subst hd'
+    exact hk
+
+open KrroodVerif.Drive.SG in
+/-- **C20_no_garbage_run_harness.** On the schema the correspondence runs (classes defined on the way included): for every
+valid allocator and every history the garbage list is empty at every point. -/
+theorem C20_no_garbage_run_harness (extra : List (Cls × Cls)) (a : Alloc σ) (ha : a.Valid) (ops : List Op) :
+    (run Quirks.asIs (schemaWith extra) a ops).h.garbage Quirks.asIs = [] :=
+  C20_no_garbage_run_partial _ (C20_harness_schema_closed extra) a ha ops
+
 /-! Non-vacuity: the hypotheses are met by non-trivial inputs. -/
 example : cexSchema.ContainerClosed :=
   ⟨fun _ _ _ _ h => by simp [cexSchema] at h, fun _ _ _ _ h => by simp [cexSchema] at h,
